@@ -24,6 +24,7 @@ import (
 	"os"
 	"strconv"
 
+	"github.com/thushan/olla/internal/adapter/stats"
 	"github.com/thushan/olla/internal/zz_verif/scen"
 	"github.com/thushan/olla/internal/zz_verif/scen19"
 	"github.com/thushan/olla/internal/zz_verif/stack"
@@ -594,6 +595,23 @@ func main() {
 			nEP := []int{3, 8, 20, 60, 75, 5, 51, 120}[k%8]
 			c.Emit(map[string]any{"kind": "collector-history", "impl": collectorHistory(cr.Fork(), nEP, nops)})
 			c.Count(fmt.Sprintf("collector-history.%d", nEP))
+		}
+		// round 8: busy fleets — fleet sizes at, next to and well above the number of endpoints the collector tracks, with
+		// as many endpoints busy when a clean-up pass runs (collector.go, collectorHistoryF)
+		m := stats.MaxTrackedEndpoints
+		sizes := []int{m + 1, 64, m, 2*m + 20, m + 2, 128, m - 1, 10 * m}
+		nf, fops := 8, 500
+		if tier == "thorough" {
+			nf, fops = 32, 1200
+			sizes = append(sizes, 65, 2*m, 3*m+1, 127, 2*m+1, 63, 256, 20*m)
+		}
+		for k := 0; k < nf; k++ {
+			nEP := sizes[k%len(sizes)]
+			if k >= len(sizes) {
+				nEP = vlib.Pick(cr, sizes) + cr.Intn(3) - 1
+			}
+			c.Emit(map[string]any{"kind": "collector-history", "impl": collectorHistoryF(cr.Fork(), nEP, fops, true)})
+			c.Count(fmt.Sprintf("collector-history.fleet.%d", nEP))
 		}
 	}
 	for _, engine := range []string{"sherpa", "olla"} {
